@@ -527,3 +527,11 @@ func MutexHeld(m *sync.Mutex) bool {
 	}
 	return true
 }
+
+// MutexHoldByOther makes m held by "somebody else" (another fan's analysis) who releases it after
+// ms milliseconds in native runs. Symbolically a Lock() on such a mutex returns once the other
+// holder has released it and TryLock() fails while it is held.
+func MutexHoldByOther(m *sync.Mutex, ms int) {
+	m.Lock()
+	time.AfterFunc(time.Duration(ms)*time.Millisecond, m.Unlock)
+}
